@@ -166,7 +166,7 @@ func H_mutate() {
 		if vfParam("rb") == 0 {
 			size = hBlockLen(o)
 		}
-		for i := 0; i < 64; i++ {
+		for i := 0; i < 1<<17; i++ {
 			buf := make([]byte, size)
 			n, e := zr.Read(buf)
 			out = append(out, buf[:n]...)
@@ -326,7 +326,7 @@ func hDrain(zr *Reader, rb, blockSize int) (out []byte, clean bool) {
 	if rb == 0 {
 		size = blockSize
 	}
-	for i := 0; i < 64; i++ {
+	for i := 0; i < 1<<17; i++ {
 		buf := make([]byte, size)
 		n, err := zr.Read(buf)
 		out = append(out, buf[:n]...)
@@ -373,7 +373,8 @@ func H_stream() {
 			size = 65536
 		}
 		done := false
-		for i := 0; i < 40 && !done; i++ {
+		// a few stream bytes can decode to a whole 64 KiB block (long matches): allow that many reads
+		for i := 0; i < 1<<17 && !done; i++ {
 			buf := make([]byte, size)
 			k, e := zr.Read(buf)
 			out = append(out, buf[:k]...)
